@@ -24,7 +24,8 @@ def near_tie_cells(spec, out, margin=1e-7):
                 key = 'None' if parent is None else f'{parent[0]}/{parent[1]}'
                 genes = list(out['marker_genes'][key])
                 m = model.node(ci, vt, parent, genes, [list(range(len(genes)))])
-                if m['ambiguous'] or m['min_margin'] < margin:
+                ill = model.float32 and m.get('min_rel_std', 1.0) < 1e-2
+                if m['ambiguous'] or m['min_margin'] < max(margin, 10 * m.get('tol', 0.0) if model.float32 else margin) or ill:
                     flagged.add(r['cell_id'])
                     break
             parent = (lv, r[lv]['assignment'])
